@@ -43,6 +43,17 @@ Theorem C08_aborted_iteration_invisible_partial : forall t, iter_ok t = true -> 
 Proof. exact iter_table_ok. Qed.
 Print Assumptions C08_aborted_iteration_invisible_partial.
 
+(* a strictly constructed parser (no recover, no retry) rejects every truncation; a recovering one does not *)
+Theorem C08_strict_parser_rejects_truncated_partial : forall d, accepts false d = true ->
+    forall k, k < length d -> accepts false (firstn k d) = false.
+Proof. exact strict_rejects_truncated. Qed.
+Print Assumptions C08_strict_parser_rejects_truncated_partial.
+
+Theorem C08_recovering_parser_refuted : exists d k,
+    accepts false d = true /\ k < length d /\ accepts true (firstn k d) = true /\ accepts false (firstn k d) = false.
+Proof. exact recover_accepts_truncated. Qed.
+Print Assumptions C08_recovering_parser_refuted.
+
 (* INSTANCE *)
 From Run Require Import Gen_C08 Inst_C08.
 
@@ -57,3 +68,8 @@ Theorem C08_document_iterators_rewind_partial : forall c m z, In (c, m, z) Gen_C
     forall s1 s2 : cstate, (forall f, mem_str f m = false -> s1 f = s2 f) -> forall f, rewind z s1 f = rewind z s2 f.
 Proof. exact (iter_table_ok Gen_C08.iter_state Inst_C08.iter_state_ok). Qed.
 Print Assumptions C08_document_iterators_rewind_partial.
+
+(* every XML parser the current tree constructs is strict *)
+Theorem C08_parsers_strict_partial : parser_strict Gen_C08.parsers = true.
+Proof. exact Inst_C08.parser_strict_ok. Qed.
+Print Assumptions C08_parsers_strict_partial.
